@@ -176,11 +176,37 @@ namespace
                 }
                 op.done(id, r, b, off, nsz);
             }
-            else if (c.op == "dn")
+            else if (c.op == "fill")
+            {
+                // every node the pool has without growing (so the last node of the last chunk is out as well)
+                while (pool->capacity_left() >= nsz && live.size() < 5000)
+                {
+                    Op          op("an");
+                    void*       p = nullptr;
+                    std::string r = classify([&] { p = pool->allocate_node(); });
+                    long        b = -1, off = 0;
+                    int         id = 0;
+                    if (!p)
+                    {
+                        op.done(0, r, b, off, nsz);
+                        break;
+                    }
+                    world().project(p, b, off);
+                    id = ++next_id;
+                    live.push_back(Live{id, p});
+                    freed.erase(std::remove(freed.begin(), freed.end(), p), freed.end());
+                    op.done(id, r, b, off, nsz);
+                }
+            }
+            else if (c.op == "dn" || c.op == "dnhi")
             {
                 if (live.empty())
                     continue;
                 std::size_t k = static_cast<std::size_t>(c.arg(0)) % live.size();
+                if (c.op == "dnhi") // the live node with the highest address
+                    for (std::size_t i = 0; i < live.size(); ++i)
+                        if (live[i].p > live[k].p)
+                            k = i;
                 Live        l = live[k];
                 long        b, off;
                 world().project(l.p, b, off);
